@@ -88,6 +88,13 @@ func fenGen(r *common.Rng, n int, shard int, out *common.Out) {
 		for _, s := range poslib.CuratedFens {
 			out.Line("M %s", poslib.Hex(s))
 		}
+		// counter boundaries as canonical texts (full-move number 1..128, half-move clock 0..255)
+		for _, s := range []string{
+			"4k3/8/8/8/8/8/8/R3K2R w KQ - 255 128", "4k3/8/8/8/8/8/8/R3K2R b KQ - 254 128", "4k3/8/8/8/8/8/8/R3K2R b KQ - 0 127",
+			"4k3/8/8/8/8/8/8/R3K2R w KQ - 100 100", "r3k2r/8/8/8/8/8/8/4K3 b kq - 9 1", "r3k2r/8/8/8/8/8/8/4K3 w kq - 10 2",
+		} {
+			out.Line("C %s", poslib.Hex(s))
+		}
 	}
 	starts := poslib.StartPositions()
 	cnt := 0
@@ -108,7 +115,8 @@ func fenGen(r *common.Rng, n int, shard int, out *common.Out) {
 					q.Ply ^= 1
 				}
 			}
-			fen := q.ToFen()
+			// canonical text comes from the harness's own printer, not from the engine's ToFen
+			fen := poslib.SimpleFen(&q.PiecesBoard, q.SideToMove, int(q.Castling), int(q.EnPassant), int(q.HalfMoveClock), int(q.Ply)/2+1)
 			out.Line("C %s", poslib.Hex(fen))
 			cnt++
 			if r.Chance(1, 2) {
